@@ -21,13 +21,29 @@ ASSUMPTIONS = [
     "and around, numeric-looking text, on str / unordered / ordered Categorical columns; levels that "
     "contain a quote character are outside the explored space (the scanner has no escape syntax)",
 ]
+ASSUMPTIONS += [
+    "degenerate sizes: every response form is also built on a one-row frame and on a frame in which "
+    "missing values in used columns (float NaN, str None, Categorical NaN) leave exactly one complete "
+    "row under na_action='drop'; a response with a single observed level (`one`, and every str "
+    "response on one row) is part of the response forms",
+    "the shape of response.design_matrix is judged by Spec.C15.shapeHolds ([n, #levels] for a "
+    "categorical response, [n, 2] for prop, one column for numeric and y[level]; n = rows of the frame "
+    "after the NA step); a 0-d array is sent as a 1 x 1 matrix and fails on its shape",
+    "'a numeric response is returned unchanged' is judged exactly (Spec.C15.unchanged, no tolerance) "
+    "for bare / back-quoted numeric columns: float64, int64 and uint64 columns and the pandas nullable "
+    "Int64 / UInt64 (with and without pd.NA) holding integers beyond 2**53 that float64 cannot "
+    "represent; values cross the protocol as Python integers",
+]
 TRUSTED = ["pandas dtype inference for the response column"]
 
 RESPONSES = ["y", "yc", "cu", "co", "yc[yes]", "yc['yes']", "yc[\"maybe\"]", "cu[m3]", "co[lo]",
              "co[hi]", "co['mid']", "yc[absent]", "cu[m1]",
              "p(s, n)", "prop(s, n)", "proportion(s, 9)", "p(s, 12)", "p(s8, 300)",
              "prop(s8, nbig)", "I(y * 2)", "{y + 1}", "`y`",
-             "center(y)"]
+             "center(y)",
+             # a single observed level; integers beyond 2**53 in numpy and nullable integer columns
+             "one", "bi", "bI", "bu", "bU", "bN", "`bI`"]
+VARIANTS = ["one_row", "one_complete"]
 # unusual but legitimate level spellings: the empty string, Python keywords / literals spelled as text,
 # blanks inside and around, numeric-looking text.  (None of them contains a quote character.)
 QLEVELS = ["", "None", "no answer", "1", "if", "True", "01", "1.0", " pad ", "not", "0"]
@@ -42,9 +58,12 @@ RHS = ["x", "f", "x + f", "f:x + g", "0 + f", "x + (1 | g)", "(x | g) + f", "C(k
 
 
 def run(formula, df):
+    import contextlib
+    import io
     import formulae
     try:
-        dm = formulae.design_matrices(formula, df, extra_namespace=designs.namespace())
+        with contextlib.redirect_stdout(io.StringIO()):     # the library prints when a call raises
+            dm = formulae.design_matrices(formula, df, extra_namespace=designs.namespace())
     except Exception as e:  # noqa
         return {"err": type(e).__name__}, None
     return None, dm
@@ -64,6 +83,71 @@ def add_level_columns(r, df):
     df["cq"] = pd.Categorical(draw(QCAT), categories=QCAT)
     df["cqo"] = pd.Categorical(draw(QCAT), categories=QCAT, ordered=True)
     return df
+
+
+def add_int_columns(r, df):
+    """numeric responses that float64 cannot hold: int64 / uint64 and the nullable Int64 / UInt64
+    (one of them with missing values) with magnitudes beyond 2**53"""
+    n = len(df)
+
+    def big():
+        m = r.choice([2 ** 53, 2 ** 53, 2 ** 55, 2 ** 60, 2 ** 62])
+        return r.choice([1, -1]) * (m + r.randrange(1, 400))
+
+    vals = [big() if r.random() < 0.8 else r.randrange(-50, 50) for _ in range(n)]
+    uvals = [r.choice([2 ** 53, 2 ** 63, 2 ** 64 - 500]) + r.randrange(1, 400) if r.random() < 0.8
+             else r.randrange(0, 50) for _ in range(n)]
+    df["bi"] = np.array(vals, dtype="int64")
+    df["bI"] = pd.array(vals, dtype="Int64")
+    df["bu"] = np.array(uvals, dtype="uint64")
+    df["bU"] = pd.array(uvals, dtype="UInt64")
+    miss = [None if r.random() < 0.3 else v for v in vals]
+    miss[r.randrange(n)] = vals[0]
+    df["bN"] = pd.array(miss, dtype="Int64")
+    return df
+
+
+NA_COLUMNS = ("y", "x", "z", "yc", "f", "g", "h", "cu", "co", "yq", "cq", "cqo")
+
+
+def variant_frame(r, df, variant):
+    """one_row: a single row of the frame (its label kept); one_complete: the same frame with
+    missing values in the float / str / Categorical columns of every row but one"""
+    n = len(df)
+    j = r.randrange(n)
+    if variant == "one_row":
+        return df.iloc[[j]]
+    out = df.copy()
+    for c in NA_COLUMNS:
+        col = df[c]
+        vals = col.tolist()
+        if isinstance(col.dtype, pd.CategoricalDtype):
+            vals = [v if i == j else None for i, v in enumerate(vals)]
+            out[c] = pd.Categorical(vals, categories=col.dtype.categories, ordered=col.dtype.ordered)
+        elif pd.api.types.is_numeric_dtype(col):
+            out[c] = np.array([v if i == j else np.nan for i, v in enumerate(vals)], dtype=float)
+        else:
+            out[c] = np.array([v if i == j else None for i, v in enumerate(vals)], dtype=object)
+    return out
+
+
+def kept_rows(dm, df):
+    """positions of the rows of `df` that are complete in the columns the design uses"""
+    cols = [c for c in designs.dm_frame(dm, df).columns if c in df.columns]
+    return tuple(np.flatnonzero(~df[cols].isna().any(axis=1).to_numpy()).tolist())
+
+
+def resp_mat(a):
+    """the array as rows (first axis = observations); a 0-d array has no row axis: sent as 1 x 1,
+    its shape [] is what the shape predicate judges"""
+    a = np.asarray(a)
+    if a.ndim == 0:
+        return [[designs.frac(a.item())]]
+    if a.ndim == 1:
+        a = a[:, None]
+    elif a.ndim > 2:
+        a = a.reshape(len(a), -1)
+    return [[designs.frac(v) for v in row] for row in a.tolist()]
 
 
 def new_frames(r, df):
@@ -87,7 +171,9 @@ def explore(tier, seed, res=None, replay=None):
     res = res or Result()
     res.rule = ("%d response forms (numeric, str, Categorical, ordered, y[ident], y['quoted'] incl. the "
                 "empty level / keyword-like / blank-containing / numeric-looking levels, calls, prop "
-                "with column or constant trials) x right-hand sides x generated frames; every prop "
+                "with column or constant trials, a one-level factor, int64 / uint64 / nullable Int64 / "
+                "UInt64 columns with integers beyond 2**53) x right-hand sides x generated frames, "
+                "each frame also cut down to one row and to one complete row; every prop "
                 "response also evaluated on new frames shorter than, as long as and longer than the "
                 "training frame; plus non-single-term responses and formulas without a response; "
                 "non-trivial = a categorical, subset or prop response; distinct by (formula, frame "
@@ -101,7 +187,7 @@ def explore(tier, seed, res=None, replay=None):
     reqs, owners = [], []
     cases = []
     if replay is not None:
-        cases = [(replay["formula"], replay.get("seed_path", 0))]
+        cases = [(replay["formula"], replay.get("seed_path", 0), replay.get("variant"))]
     else:
         k = 0
         for fi in range(n_frames):
@@ -109,29 +195,40 @@ def explore(tier, seed, res=None, replay=None):
                 # every response form with a rotating subset of right-hand sides per frame
                 for resp in RESPONSES:
                     if (ri + RESPONSES.index(resp) + fi) % (1 if tier == "thorough" else 3) == 0:
-                        cases.append((f"{resp} ~ {rhs}", fi))
+                        cases.append((f"{resp} ~ {rhs}", fi, None))
                 for li, resp in enumerate(LEVEL_RESPONSES):
                     if (ri + li + fi) % (3 if tier == "thorough" else 9) == 0:
-                        cases.append((f"{resp} ~ {rhs}", fi))
+                        cases.append((f"{resp} ~ {rhs}", fi, None))
+                # degenerate sizes: one row, one complete row
+                for vi, variant in enumerate(VARIANTS):
+                    for li, resp in enumerate(RESPONSES + LEVEL_RESPONSES[:3]):
+                        if (ri + li + fi + vi) % (4 if tier == "thorough" else 7) == 0:
+                            cases.append((f"{resp} ~ {rhs}", fi, variant))
                 k += 1
     frames = {}
     news = {}
     base_cache = {}
     pred_reqs, pred_owners = [], []
-    for formula, fi in cases:
+    for formula, fi, variant in cases:
         if fi not in frames:
             frames[fi] = designs.gen_frame(rng_for(seed, "c15", "frame", fi))
             # successes stored with a compact dtype, trials beyond its range
             frames[fi]["s8"] = frames[fi]["s"].astype("int8")
             frames[fi]["nbig"] = frames[fi]["n"] + 250
             add_level_columns(rng_for(seed, "c15", "levels", fi), frames[fi])
+            add_int_columns(rng_for(seed, "c15", "ints", fi), frames[fi])
             news[fi] = new_frames(rng_for(seed, "c15", "new", fi), frames[fi])
-        df = frames[fi]
+        if variant is not None and (fi, variant) not in frames:
+            frames[(fi, variant)] = variant_frame(rng_for(seed, "c15", "variant", fi, variant),
+                                                  frames[fi], variant)
+        df = frames[fi] if variant is None else frames[(fi, variant)]
         res.evaluations += 1
         err, dm = run(formula, df)
         case = {"formula": formula, "seed_path": fi}
+        if variant is not None:
+            case["variant"] = variant
         if err:
-            res.count("impl_error:" + err["err"])
+            res.count("impl_error:" + err["err"] + ("" if variant is None else ":" + variant))
             continue
         if dm.response is None:
             res.failures.append({"case": case, "impl": "no response", "expected": "a response",
@@ -139,12 +236,23 @@ def explore(tier, seed, res=None, replay=None):
             continue
         rm = dm.response
         t = rm.term.term
+        used = designs.dm_frame(dm, df)
+        try:
+            shape = [int(v) for v in np.shape(rm.design_matrix)]
+            matrix = resp_mat(rm.design_matrix)
+        except Exception as e:  # noqa: an object that is not an array of numbers
+            res.failures.append({"case": case, "impl": repr(e)[:200], "finding": None,
+                                 "expected": "a numeric array", "why": "response.design_matrix is "
+                                 "not an array of numbers"})
+            continue
         reqs.append({"op": "c15_spec", "formula": formula,
-                     "frame": designs.frame_json(designs.dm_frame(dm, df)),
+                     "frame": designs.frame_json(used),
                      "names": designs.names_json(designs.NAMES),
-                     "matrix": designs.mat(rm.design_matrix), "kind": rm.kind,
+                     "matrix": matrix, "shape": shape, "kind": rm.kind,
                      "levels": None if rm.levels is None else [str(x) for x in rm.levels]})
-        owners.append((case, rm.kind))
+        owners.append((case, rm.kind, shape))
+        res.count("retained_rows:" + ("1" if len(used) == 1 else "2+")
+                  + ("" if variant is None else ":" + variant))
         resp, rhs = formula.split(" ~ ", 1)
         if rm.kind == "proportion":
             # the response on new frames of every length relation to the training frame
@@ -168,17 +276,22 @@ def explore(tier, seed, res=None, replay=None):
                 pred_owners.append(pcase)
                 res.count("prop_prediction:" + ("shorter" if len(nd) < len(df) else
                                                 "equal" if len(nd) == len(df) else "longer"))
-        if any(c in resp for c in "[(") or resp in ("yc", "cu", "co", "yq", "cq", "cqo"):
-            res.nontrivial.add((formula, fi))
+        if any(c in resp for c in "[(") or resp in ("yc", "cu", "co", "yq", "cq", "cqo", "one"):
+            res.nontrivial.add((formula, fi, variant))
         # predictor independence: same right-hand side, response `y`
-        key = (rhs, fi)
+        key = (rhs, fi, variant)
         if key not in base_cache:
             e0, d0 = run("y ~ " + rhs, df)
             base_cache[key] = None if e0 else {
+                "kept": kept_rows(d0, df),
                 "common": None if d0.common is None else designs.mat(d0.common.design_matrix),
                 "group": None if d0.group is None else designs.mat(d0.group.design_matrix)}
         b = base_cache[key]
-        if b is not None:
+        if b is not None and b["kept"] != kept_rows(dm, df):
+            # the two runs retain different observations (a missing value in one of the responses):
+            # the statement compares runs on the same observations
+            res.count("independence_skipped:different rows retained")
+        elif b is not None:
             mine = {"common": None if dm.common is None else designs.mat(dm.common.design_matrix),
                     "group": None if dm.group is None else designs.mat(dm.group.design_matrix)}
             for part in ("common", "group"):
@@ -190,11 +303,28 @@ def explore(tier, seed, res=None, replay=None):
             res.samples.append({"formula": formula, "kind": rm.kind,
                                 "levels": None if rm.levels is None else list(map(str, rm.levels))})
         _ = t
-    for (case, kind), sp in zip(owners, ask(reqs)):
+    for (case, kind, shape), sp in zip(owners, ask(reqs)):
         if "err" in sp:
             res.count("spec_skip:" + sp["err"] + ":" + str(sp.get("what"))[:30])
             continue
         res.traces += 1
+        if not sp.get("shape_holds"):
+            res.failures.append({"case": case, "impl": {"kind": kind, "shape": shape},
+                                 "expected": {"rows": sp.get("expected_rows"),
+                                              "levels": sp.get("expected_levels"),
+                                              "kind": sp.get("expected_kind")},
+                                 "finding": None,
+                                 "why": "shape of response.design_matrix: not one row per retained "
+                                        "observation with one indicator column per level / the two "
+                                        "columns of prop / a single column"})
+        if sp.get("bare_numeric"):
+            res.count("numeric_response_exact")
+            if not sp.get("unchanged"):
+                res.failures.append({"case": case, "impl": {"kind": kind, "shape": shape},
+                                     "expected": "the column of the frame, entry by entry (exact)",
+                                     "finding": None,
+                                     "why": "a numeric response is not returned unchanged (exact "
+                                            "comparison of every entry with the frame)"})
         if not sp.get("holds"):
             res.failures.append({"case": case, "impl": {"kind": kind},
                                  "expected": {"levels": sp.get("expected_levels"),
